@@ -35,12 +35,16 @@ Inductive wpc :=
   | WEnterH | WEnterT | WEnterFlags
   | WWbH | WWbT | WWbTry.
 
-Record waker := { wp : wpc; calls : nat (* wake() calls still to make, incl. the current one *) }.
+Record waker := { wp : wpc; calls : nat (* wake() calls still to make, incl. the current one *);
+                  wok : bool (* local: the add of the current attempt succeeded *) }.
 
 Record st := {
   md : mode;
   pstate : N;             (* PollingState: bit 0 polling, bit 1 awoken *)
-  sqh : N; sqt : N;       (* submissions consumed / published (all are MSG_RING wake messages) *)
+  cap : N;                (* submission queue entries *)
+  sqh : N; sqt : N;       (* submissions consumed / published *)
+  sqo : N;                (* of the pending ones, how many (at the front) are not wake messages: operations queued
+                             before the race that never complete *)
   cq : N;                 (* completions published, not yet released *)
   holder : option nat;    (* submission lock *)
   pp : ppc;
@@ -55,10 +59,10 @@ Record st := {
   lost : bool;            (* the poller blocked for ever although a wake-up was owed *)
 }.
 
-Definition init (m : mode) (npolls : nat) (wcalls : list nat) : st :=
-  {| md := m; pstate := 0; sqh := 0; sqt := 0; cq := 0; holder := None;
+Definition init (m : mode) (c prefill : N) (npolls : nat) (wcalls : list nat) : st :=
+  {| md := m; cap := c; sqo := prefill; pstate := 0; sqh := 0; sqt := prefill; cq := 0; holder := None;
      pp := PIdle; polls := npolls; aw := false; lh := 0; seen := 0;
-     wakers := map (fun c => {| wp := WIdle; calls := c |}) wcalls;
+     wakers := map (fun c => {| wp := WIdle; calls := c; wok := false |}) wcalls;
      wlh := map (fun _ => 0) wcalls; owed := false; lost := false |}.
 
 Definition ppc_code (p : ppc) : Z :=
@@ -84,7 +88,7 @@ Definition upd (s : st) (f : st -> st) : st := f s.
 
 (** Record updates, spelled out. *)
 Definition set_p (s : st) (p : ppc) : st :=
-  {| md := md s; pstate := pstate s; sqh := sqh s; sqt := sqt s; cq := cq s; holder := holder s;
+  {| md := md s; cap := cap s; sqo := sqo s; pstate := pstate s; sqh := sqh s; sqt := sqt s; cq := cq s; holder := holder s;
      pp := p; polls := polls s; aw := aw s; lh := lh s; seen := seen s; wakers := wakers s;
      wlh := wlh s; owed := owed s; lost := lost s |}.
 
@@ -92,7 +96,9 @@ Definition set_p (s : st) (p : ppc) : st :=
     submitted through the ring, the sender's own completion. *)
 Definition consume (s : st) (k : N) : st :=
   let k' := N.min k (sqt s - sqh s) in
-  {| md := md s; pstate := pstate s; sqh := sqh s + k'; sqt := sqt s; cq := cq s + 2 * k';
+  let o := N.min k' (sqo s) in
+  {| md := md s; cap := cap s; sqo := sqo s - o; pstate := pstate s; sqh := sqh s + k'; sqt := sqt s;
+     cq := cq s + 2 * (k' - o);
      holder := holder s; pp := pp s; polls := polls s; aw := aw s; lh := lh s; seen := seen s;
      wakers := wakers s; wlh := wlh s; owed := owed s; lost := lost s |}.
 
@@ -105,15 +111,37 @@ Definition syscall_submit (s : st) (to_submit : N) : st :=
   | _ => consume s to_submit
   end.
 
+(** [unsubmitted_submissions() >= len], with the head loaded earlier. *)
+Definition sq_full (s : st) (loaded_head : N) : bool := cap s <=? sqt s - loaded_head.
+
+Definition set_lh (s : st) (v : N) : st :=
+  {| md := md s; cap := cap s; sqo := sqo s; pstate := pstate s; sqh := sqh s; sqt := sqt s; cq := cq s; holder := holder s;
+     pp := pp s; polls := polls s; aw := aw s; lh := v; seen := seen s; wakers := wakers s;
+     wlh := wlh s; owed := owed s; lost := lost s |}.
+
+(** The poll returns. *)
+Definition poll_return (s : st) : st :=
+  {| md := md s; cap := cap s; sqo := sqo s; pstate := pstate s; sqh := sqh s; sqt := sqt s; cq := cq s;
+     holder := holder s; pp := PIdle; polls := pred (polls s); aw := false; lh := lh s; seen := seen s;
+     wakers := wakers s; wlh := wlh s; owed := false; lost := lost s |}.
+
 (** Poller steps. *)
 Definition after_enter_ok (s : st) : st := set_p s PWbH.
 
-Definition enter_wait (s : st) : st :=
-  (* GETEVENTS with min_complete = 1: return at once when a completion is there or the timeout
-     is zero (awoken); otherwise block *)
+Definition enter_wait (s : st) (submitted : N) : st :=
+  (* GETEVENTS with min_complete = 1: return at once when a completion is there; with a zero
+     timeout (awoken) report what was submitted, or ETIME when nothing was; otherwise block *)
   if 0 <? cq s then after_enter_ok s
-  else if aw s then set_p s PClearPolling           (* ETIME: no wake_blocked_futures *)
+  else if aw s then (if 0 <? submitted then after_enter_ok s
+                     else set_p s PClearPolling)      (* ETIME: no wake_blocked_futures *)
   else set_p s PInKernel.
+
+(** How many entries a syscall asking for [to_submit] takes. *)
+Definition submitted_count (s : st) (to_submit : N) : N :=
+  match md s with
+  | KernelThread => 0
+  | _ => N.min to_submit (sqt s - sqh s)
+  end.
 
 Definition pstep (s : st) : st :=
   match pp s with
@@ -125,75 +153,73 @@ Definition pstep (s : st) : st :=
       end
   | PLoadCqT =>
       if 0 <? cq s then
-        {| md := md s; pstate := pstate s; sqh := sqh s; sqt := sqt s; cq := cq s; holder := holder s;
+        {| md := md s; cap := cap s; sqo := sqo s; pstate := pstate s; sqh := sqh s; sqt := sqt s; cq := cq s; holder := holder s;
            pp := PStoreHead; polls := polls s; aw := aw s; lh := lh s; seen := cq s;
            wakers := wakers s; wlh := wlh s; owed := owed s; lost := lost s |}
       else set_p s PSetPolling
   | PSetPolling =>
       let awoken := N.testbit (pstate s) 1 in
-      {| md := md s; pstate := IS_POLLING; sqh := sqh s; sqt := sqt s; cq := cq s; holder := holder s;
+      {| md := md s; cap := cap s; sqo := sqo s; pstate := IS_POLLING; sqh := sqh s; sqt := sqt s; cq := cq s; holder := holder s;
          pp := match md s with KernelThread => PEnterFlags | _ => PEnterH end;
          polls := polls s; aw := awoken; lh := lh s; seen := seen s;
          wakers := wakers s; wlh := wlh s; owed := owed s; lost := lost s |}
   | PEnterH =>
-      {| md := md s; pstate := pstate s; sqh := sqh s; sqt := sqt s; cq := cq s; holder := holder s;
+      {| md := md s; cap := cap s; sqo := sqo s; pstate := pstate s; sqh := sqh s; sqt := sqt s; cq := cq s; holder := holder s;
          pp := PEnterT; polls := polls s; aw := aw s; lh := sqh s; seen := seen s;
          wakers := wakers s; wlh := wlh s; owed := owed s; lost := lost s |}
-  | PEnterT => enter_wait (syscall_submit s (sqt s - lh s))
-  | PEnterFlags => enter_wait (syscall_submit s 0)
+  | PEnterT => enter_wait (syscall_submit s (sqt s - lh s)) (submitted_count s (sqt s - lh s))
+  | PEnterFlags => enter_wait (syscall_submit s 0) 0
   | PInKernel =>
       (* resumed by the scheduler: only when something arrived *)
       let s' := match md s with KernelThread => consume_all s | _ => s end in
       if 0 <? cq s' then after_enter_ok s' else s'
-  | PWbH => set_p s PWbT
-  | PWbT => set_p s PWbTry
+  | PWbH => set_p (set_lh s (sqh s)) PWbT
+  | PWbT => if sq_full s (lh s) then set_p s PClearPolling else set_p s PWbTry
   | PWbTry => set_p s PClearPolling
   | PClearPolling =>
-      {| md := md s; pstate := NOT_POLLING; sqh := sqh s; sqt := sqt s; cq := cq s; holder := holder s;
+      {| md := md s; cap := cap s; sqo := sqo s; pstate := NOT_POLLING; sqh := sqh s; sqt := sqt s; cq := cq s; holder := holder s;
          pp := PLoadCqT2; polls := polls s; aw := aw s; lh := lh s; seen := seen s;
          wakers := wakers s; wlh := wlh s; owed := owed s; lost := lost s |}
   | PLoadCqT2 =>
-      {| md := md s; pstate := pstate s; sqh := sqh s; sqt := sqt s; cq := cq s; holder := holder s;
+      {| md := md s; cap := cap s; sqo := sqo s; pstate := pstate s; sqh := sqh s; sqt := sqt s; cq := cq s; holder := holder s;
          pp := PStoreHead; polls := polls s; aw := aw s; lh := lh s; seen := cq s;
          wakers := wakers s; wlh := wlh s; owed := owed s; lost := lost s |}
   | PStoreHead =>
       (* head := tail snapshot *)
-      {| md := md s; pstate := pstate s; sqh := sqh s; sqt := sqt s; cq := cq s - seen s;
+      {| md := md s; cap := cap s; sqo := sqo s; pstate := pstate s; sqh := sqh s; sqt := sqt s; cq := cq s - seen s;
          holder := holder s; pp := PEndWbH; polls := polls s; aw := aw s; lh := lh s; seen := 0;
          wakers := wakers s; wlh := wlh s; owed := owed s; lost := lost s |}
-  | PEndWbH => set_p s PEndWbT
-  | PEndWbT => set_p s PEndWbTry
-  | PEndWbTry =>
-      (* the poll returns *)
-      {| md := md s; pstate := pstate s; sqh := sqh s; sqt := sqt s; cq := cq s;
-         holder := holder s; pp := PIdle; polls := pred (polls s); aw := false; lh := lh s; seen := seen s;
-         wakers := wakers s; wlh := wlh s; owed := false; lost := lost s |}
+  | PEndWbH => set_p (set_lh s (sqh s)) PEndWbT
+  | PEndWbT => if sq_full s (lh s) then poll_return s else set_p s PEndWbTry
+  | PEndWbTry => poll_return s
   end.
 
 (** The poller is blocked and the scheduler found nobody who could still run. *)
 Definition pstuck (s : st) : st :=
-  {| md := md s; pstate := pstate s; sqh := sqh s; sqt := sqt s; cq := cq s; holder := holder s;
+  {| md := md s; cap := cap s; sqo := sqo s; pstate := pstate s; sqh := sqh s; sqt := sqt s; cq := cq s; holder := holder s;
      pp := PClearPolling; polls := polls s; aw := aw s; lh := lh s; seen := seen s;
      wakers := wakers s; wlh := wlh s; owed := owed s; lost := lost s || owed s |}.
 
 Definition set_w (s : st) (i : nat) (w : waker) : st :=
-  {| md := md s; pstate := pstate s; sqh := sqh s; sqt := sqt s; cq := cq s; holder := holder s;
+  {| md := md s; cap := cap s; sqo := sqo s; pstate := pstate s; sqh := sqh s; sqt := sqt s; cq := cq s; holder := holder s;
      pp := pp s; polls := polls s; aw := aw s; lh := lh s; seen := seen s;
      wakers := firstn i (wakers s) ++ w :: skipn (S i) (wakers s);
      wlh := wlh s; owed := owed s; lost := lost s |}.
 
 Definition set_wlh (s : st) (i : nat) (v : N) : st :=
-  {| md := md s; pstate := pstate s; sqh := sqh s; sqt := sqt s; cq := cq s; holder := holder s;
+  {| md := md s; cap := cap s; sqo := sqo s; pstate := pstate s; sqh := sqh s; sqt := sqt s; cq := cq s; holder := holder s;
      pp := pp s; polls := polls s; aw := aw s; lh := lh s; seen := seen s; wakers := wakers s;
      wlh := firstn i (wlh s) ++ v :: skipn (S i) (wlh s); owed := owed s; lost := lost s |}.
 
 Definition set_holder (s : st) (h : option nat) : st :=
-  {| md := md s; pstate := pstate s; sqh := sqh s; sqt := sqt s; cq := cq s; holder := h;
+  {| md := md s; cap := cap s; sqo := sqo s; pstate := pstate s; sqh := sqh s; sqt := sqt s; cq := cq s; holder := h;
      pp := pp s; polls := polls s; aw := aw s; lh := lh s; seen := seen s; wakers := wakers s;
      wlh := wlh s; owed := owed s; lost := lost s |}.
 
-Definition call_done (w : waker) : waker := {| wp := WIdle; calls := pred (calls w) |}.
-Definition at_pc (w : waker) (p : wpc) : waker := {| wp := p; calls := calls w |}.
+Definition call_done (w : waker) : waker := {| wp := WIdle; calls := pred (calls w); wok := false |}.
+Definition at_pc (w : waker) (p : wpc) : waker := {| wp := p; calls := calls w; wok := wok w |}.
+Definition at_pc_ok (w : waker) (p : wpc) (b : bool) : waker := {| wp := p; calls := calls w; wok := b |}.
+
 
 Definition wstep (s : st) (i : nat) : st :=
   match nth_error (wakers s) i with
@@ -206,7 +232,7 @@ Definition wstep (s : st) (i : nat) : st :=
         | S _ =>
             (* PollingState::wake: fetch_or(AWOKEN); message only when it was "polling, not awoken" *)
             let old := pstate s in
-            let s1 := {| md := md s; pstate := N.lor old IS_AWOKEN; sqh := sqh s; sqt := sqt s;
+            let s1 := {| md := md s; cap := cap s; sqo := sqo s; pstate := N.lor old IS_AWOKEN; sqh := sqh s; sqt := sqt s;
                          cq := cq s; holder := holder s; pp := pp s; polls := polls s; aw := aw s;
                          lh := lh s; seen := seen s; wakers := wakers s; wlh := wlh s;
                          owed := true; lost := lost s |} in
@@ -214,7 +240,7 @@ Definition wstep (s : st) (i : nat) : st :=
               match md s with
               | SingleIssuer =>
                   (* synchronous IORING_REGISTER_SEND_MSG_RING: one completion on the ring *)
-                  let s2 := {| md := md s1; pstate := pstate s1; sqh := sqh s1; sqt := sqt s1;
+                  let s2 := {| md := md s1; cap := cap s1; sqo := sqo s1; pstate := pstate s1; sqh := sqh s1; sqt := sqt s1;
                                cq := cq s1 + 1; holder := holder s1; pp := pp s1; polls := polls s1;
                                aw := aw s1; lh := lh s1; seen := seen s1; wakers := wakers s1;
                                wlh := wlh s1; owed := owed s1; lost := lost s1 |} in
@@ -223,29 +249,42 @@ Definition wstep (s : st) (i : nat) : st :=
               end
             else set_w s1 i (call_done w)
         end
-    | WAddH1 => set_w s i (at_pc w WAddT1)
-    | WAddT1 => set_w s i (at_pc w WAddLock)        (* the queue (8 entries) is never full here *)
+    | WAddH1 => set_w (set_wlh s i (sqh s)) i (at_pc w WAddT1)
+    | WAddT1 =>
+        (* unlocked pre-check; a full queue makes [add] fail: wake() still enters the kernel
+           (which flushes the queue) and tries again *)
+        if sq_full s (nth i (wlh s) 0)
+        then set_w s i (at_pc_ok w (match md s with KernelThread => WEnterFlags | _ => WEnterH end) false)
+        else set_w s i (at_pc w WAddLock)
     | WAddLock | WAddSpin =>
         match holder s with
         | None => set_w (set_holder s (Some i)) i (at_pc w WAddH2)
         | Some _ => set_w s i (at_pc w WAddSpin)
         end
-    | WAddH2 => set_w s i (at_pc w WAddT2)
-    | WAddT2 => set_w s i (at_pc w WAddFill)
+    | WAddH2 => set_w (set_wlh s i (sqh s)) i (at_pc w WAddT2)
+    | WAddT2 =>
+        if sq_full s (nth i (wlh s) 0)
+        then set_w (set_holder s None) i
+               (at_pc_ok w (match md s with KernelThread => WEnterFlags | _ => WEnterH end) false)
+        else set_w s i (at_pc w WAddFill)
     | WAddFill => set_w s i (at_pc w WAddStore)
     | WAddStore =>
-        let s1 := {| md := md s; pstate := pstate s; sqh := sqh s; sqt := sqt s + 1; cq := cq s;
+        let s1 := {| md := md s; cap := cap s; sqo := sqo s; pstate := pstate s; sqh := sqh s; sqt := sqt s + 1; cq := cq s;
                      holder := None; pp := pp s; polls := polls s; aw := aw s; lh := lh s;
                      seen := seen s; wakers := wakers s; wlh := wlh s; owed := owed s; lost := lost s |} in
-        set_w s1 i (at_pc w (match md s with KernelThread => WEnterFlags | _ => WEnterH end))
+        set_w s1 i (at_pc_ok w (match md s with KernelThread => WEnterFlags | _ => WEnterH end) true)
     | WEnterH => set_w (set_wlh s i (sqh s)) i (at_pc w WEnterT)
     | WEnterT =>
         (* enter(0, 0, zero timeout): submits, never waits *)
         set_w (syscall_submit s (sqt s - nth i (wlh s) 0)) i (at_pc w WWbH)
     | WEnterFlags => set_w (syscall_submit s 0) i (at_pc w WWbH)
-    | WWbH => set_w s i (at_pc w WWbT)
-    | WWbT => set_w s i (at_pc w WWbTry)
-    | WWbTry => set_w s i (call_done w)
+    | WWbH => set_w (set_wlh s i (sqh s)) i (at_pc w WWbT)
+    | WWbT =>
+        (* wake_blocked_futures returns before the try_lock when no slot is available *)
+        if sq_full s (nth i (wlh s) 0)
+        then (if wok w then set_w s i (call_done w) else set_w s i (at_pc w WAddH1))
+        else set_w s i (at_pc w WWbTry)
+    | WWbTry => if wok w then set_w s i (call_done w) else set_w s i (at_pc w WAddH1)
     end
   end.
 
@@ -274,8 +313,9 @@ Fixpoint run_steps (s : st) (es : list ev) : st * list Z :=
       let '(s1, o) := run_steps (fst (step s e)) r in (s1, here :: o)
   end.
 
-Record wkcase := { wk_mode : mode; wk_polls : nat; wk_wakes : list nat; wk_events : list ev }.
+Record wkcase := { wk_mode : mode; wk_cap : N; wk_prefill : N; wk_polls : nat; wk_wakes : list nat;
+                   wk_events : list ev }.
 
 Definition run_wkcase (c : wkcase) : list Z :=
-  let '(s, o) := run_steps (init (wk_mode c) (wk_polls c) (wk_wakes c)) (wk_events c) in
+  let '(s, o) := run_steps (init (wk_mode c) (wk_cap c) (wk_prefill c) (wk_polls c) (wk_wakes c)) (wk_events c) in
   o ++ [(-1)%Z; bz (lost s); Z.of_nat (polls s); nz (cq s); nz (sqt s - sqh s)].
